@@ -29,6 +29,10 @@ QUICK_ITMDS = ['t2_1', 't1_2', 't2_2', 'p0_2_oo', 'p0_2_vv', 't2eri_1', 't2eri_2
                't2eri_3', 't2eri_4', 't2eri_5', 't2eri_6', 't2eri_7', 't2sq',
                't2eri_A', 't2eri_B']
 THOROUGH_ITMDS = QUICK_ITMDS + ['t3_2', 't1_3', 'p0_3_oo', 'p0_3_vv', 'p0_3_ov']
+FAMILY = {'t2eri_A': 'piA', 't2eri_1': 'piA', 't2eri_2': 'piA',
+          't2eri_B': 'piB', 't2eri_6': 'piB', 't2eri_7': 'piB'}
+LONG = ('t2_2', 't1_2', 't2eri_A', 't2eri_B', 'p0_2_oo', 'p0_2_vv', 't1_3',
+        'p0_3_oo', 'p0_3_vv', 'p0_3_ov')
 OCC = ['i', 'j', 'k', 'l', 'm', 'n']
 VIRT = ['a', 'b', 'c', 'd', 'e', 'f']
 
@@ -40,7 +44,7 @@ def floors(tier):
 
 def gen_cases(tier, seed):
     r = rng_for(seed, 'C11', tier)
-    n = 220 if tier == 'quick' else 900
+    n = 300 if tier == 'quick' else 1200
     pool = QUICK_ITMDS if tier == 'quick' else THOROUGH_ITMDS
     cases = []
     for k in range(n):
@@ -52,11 +56,14 @@ def gen_cases(tier, seed):
             nterms = 2
         terms = []
         for _ in range(nterms):
-            name = r.choice(pool)
+            # long intermediates (several terms) get more weight
+            name = r.choice(pool + [x for x in pool if x in LONG] * 2)
             if bucket and terms:
                 name = terms[0]['itmd']
             elif terms:
-                name = r.choice([x for x in pool if x != terms[0]['itmd']])
+                name = r.choice([x for x in pool if FAMILY.get(x, x) !=
+                                 FAMILY.get(terms[0]['itmd'],
+                                            terms[0]['itmd'])])
             terms.append({'itmd': name, 'iseed': r.randrange(1 << 30),
                           'pref': r.choice(['1', '-1', '2', '1/2', '-1/3']),
                           # several terms: all indices linked (same targets)
@@ -65,7 +72,7 @@ def gen_cases(tier, seed):
         req = r.choice(['same', 'same', 'all', 'type', 'with_t2_1', 'order'])
         cases.append({'id': f'C11-{tier[0]}{seed}-{k:04d}', 'kind': 'gen',
                       'terms': terms, 'request': req,
-                      'perturb': r.choice(['none', 'none', 'pref', 'drop']),
+                      'perturb': r.choice(['none', 'pref', 'pref', 'drop']),
                       'once': r.random() < 0.3, 'pseed': r.randrange(1 << 30),
                       'mseed': seed * 1000 + (k % 3), 'tier': tier,
                       'cost': 30, 'timeout': 1500})
@@ -172,6 +179,7 @@ def build_term(tdesc):
             lo = lo + r.sample(extra_v, 1)
         rem = AntiSymmetricTensor('Y', tuple(get_symbols(up)),
                                   tuple(get_symbols(lo)))
+        tdesc['_anti'] = True
     else:
         rem = NonSymmetricTensor('x', tuple(get_symbols(link))) if link \
             else S.One
@@ -224,8 +232,11 @@ def run_case(case, res):
         res.skip('terms with different targets')
         return
     E.set_target_idx(tg)
-    tags = ['same_intermediate_in_several_terms'] \
-        if len(set(names)) < len(names) else []
+    fam = [FAMILY.get(x, x) for x in names]
+    anti_used = any(t.get('_anti') for t in case['terms'])
+    tags = ['mixed_prefactors_and_symmetric_remainder'] \
+        if anti_used and (case['perturb'] == 'pref'
+                          or len(set(fam)) < len(fam)) else []
     res.fingerprint = fp(sorted(names), case['request'], case['perturb'],
                          case['once'], [round(t['nlink'], 1)
                                         for t in case['terms']])
